@@ -4,7 +4,7 @@ Behaviour-preserving changes (/verif/benign/<name>/{patch.diff, equiv.py, meta.j
 false-alarm side of the seeded evaluation.  Each patch is applied to a scratch copy of /repo
 (removed at once); the pinned baseline must still pass and EVERY quick check must stay quiet.
 
-  benign_eval.py [<name>...] [--seed N] [--jobs 3]
+  benign_eval.py [<name>...] [--seed N] [--jobs 3] [--props C01,C02] [--results FILE]
 Results: /verif/benign/RESULTS.json ; exit 1 if any check alarmed (to be triaged by hand).
 """
 import argparse, json, os, shutil, subprocess, sys, time
@@ -17,9 +17,11 @@ from seeded_eval import scratch_copy  # noqa: E402
 BENIGN = os.path.join(HERE, "benign")
 
 
-def one(name, seed):
+def one(name, seed, only=None):
     sd = os.path.join(BENIGN, name)
     props = [json.loads(l)["id"] for l in open(os.path.join(HERE, "properties.jsonl"))]
+    if only:
+        props = [p for p in props if p in only]
     d, repo = scratch_copy(os.path.join(sd, "patch.diff"))
     entry = {"checks": {}}
     try:
@@ -52,12 +54,15 @@ def main():
     ap.add_argument("names", nargs="*")
     ap.add_argument("--seed", type=int, default=1)
     ap.add_argument("--jobs", type=int, default=3)
+    ap.add_argument("--props", help="comma-separated subset of checks (default: all 18)")
+    ap.add_argument("--results", default="RESULTS.json")
     a = ap.parse_args()
     names = a.names or sorted(n for n in os.listdir(BENIGN) if os.path.isdir(os.path.join(BENIGN, n)))
-    res_path = os.path.join(BENIGN, "RESULTS.json")
+    res_path = os.path.join(BENIGN, a.results)
+    only = a.props.split(",") if a.props else None
     results = json.load(open(res_path)) if os.path.exists(res_path) else {}
     with ThreadPoolExecutor(a.jobs) as ex:
-        for name, entry in ex.map(lambda n: one(n, a.seed), names):
+        for name, entry in ex.map(lambda n: one(n, a.seed, only), names):
             results[name] = entry
             json.dump(results, open(res_path, "w"), indent=1, sort_keys=True)
     sys.exit(1 if any(results[n]["alarms"] for n in names) else 0)
